@@ -73,7 +73,6 @@ class PyDBML:
             else:
                 raise TypeError("Source must be str, path or file stream")
 
-            source = remove_bom(source)
             return cls.parse(
                 source,
                 allow_properties=allow_properties,
